@@ -67,7 +67,7 @@ class SymBool:
     def __ne__(self, o):
         return sym_not(self.__eq__(o))
 
-    def __hash__(self): raise Unsupported('hash(SymBool)')
+    def __hash__(self): return hash(bool(branch(self.t)))
     def __int__(self): return 1 if branch(self.t) else 0
     def __index__(self): return self.__int__()
     def __add__(self, o): return mkint(it(self)) + o
@@ -211,7 +211,7 @@ class SymInt:
     __ror__ = __or__
     def __invert__(self): return mkint(T.isub(-1, self.t))
     def __bool__(self): return branch(T.bnot(T.ieq(self.t, 0)))
-    def __hash__(self): raise Unsupported('hash(SymInt)')
+    def __hash__(self): return hash(concretize_int(self))      # forks over the feasible values (small domains only)
     def __index__(self): return concretize_int(self)
     def __int__(self): return concretize_int(self)
     def __float__(self): raise Unsupported('float(SymInt)')
@@ -283,6 +283,9 @@ def concretize_int(x, limit=64):
     if not isinstance(x, SymInt):
         return int(x)
     c = core.ctx()
+    t0 = T._subst(x.t)
+    if isinstance(t0, int):
+        return t0                # already determined by the path condition: no decision to take
     for _ in range(limit):
         v = core.peek_aux()      # replaying: the candidate value is part of the recorded decision
         if v is None:
@@ -435,7 +438,7 @@ class SymStr:
         if oc is None: return NotImplemented
         return self._lt(oc, self.c, False)
 
-    def __hash__(self): raise Unsupported('hash(SymStr)')
+    def __hash__(self): return hash(''.join(chr(concretize_int(mkint(c), 130)) for c in self.c))     # forks over the feasible values
     def __repr__(self): return 'SymStr<%d>' % len(self.c)
 
     def __str__(self):
@@ -680,7 +683,7 @@ class SymStr:
         return mkstr(out)
 
     def format(self, *a, **k): raise Unsupported('symbolic format string')
-    def encode(self, *a, **k): raise Unsupported('encode of a symbolic string')
+    def encode(self, *a, **k): return SymBytes(self)
     def expandtabs(self, *a): raise Unsupported('expandtabs')
     def zfill(self, n): raise Unsupported('zfill')
 
@@ -692,6 +695,52 @@ class SymStr:
 
     def title(self): raise Unsupported('title')
     def capitalize(self): raise Unsupported('capitalize')
+
+
+class SymBytes:
+    """result of SymStr.encode(): only good for being decoded again"""
+    __slots__ = ('s',)
+    def __init__(self, s): self.s = s
+    def decode(self, *a, **k): return self.s
+    def __len__(self): return len(self.s)
+
+
+def _hexval(c):
+    return T.iite(cin_range(c, 48, 57), T.iadd(c, -48), T.iite(cin_range(c, 97, 102), T.iadd(c, -87), T.iadd(c, -55)))
+
+
+def unicode_escape_decode(s):
+    """codecs.decode(bytes, unicode_escape) for ASCII input: single-character escapes, octal, hex 2/4/8 digits"""
+    cs = chars_of(s); out = []; i = 0; n = len(cs)
+    while i < n:
+        c = cs[i]
+        if not decide(ceq(c, 92)) or i + 1 >= n:
+            out.append(c); i += 1; continue
+        d = cs[i + 1]
+        if decide(c_in(d, "\\'\"abfnrtv")):
+            r = d
+            for ch, v in (('a', 7), ('b', 8), ('f', 12), ('n', 10), ('r', 13), ('t', 9), ('v', 11)):
+                r = T.iite(ceq(d, ord(ch)), v, r) if not isinstance(d, int) else (v if d == ord(ch) else r)
+            out.append(r); i += 2; continue
+        if decide(cin_range(d, 48, 55)):
+            j = i + 1; v = 0
+            while j < n and j < i + 4 and decide(cin_range(cs[j], 48, 55)):
+                v = T.iadd(T.imulc(v, 8), T.iadd(cs[j], -48)); j += 1
+            out.append(v); i = j; continue
+        k = 0
+        for ch, w in (('x', 2), ('u', 4), ('U', 8)):
+            if decide(ceq(d, ord(ch))): k = w
+        if k:
+            if i + 2 + k > n: raise UnicodeDecodeError('unicodeescape', b'', i, n, 'truncated escape')
+            v = 0
+            for j in range(i + 2, i + 2 + k):
+                if not decide(zor([cin_range(cs[j], 48, 57), cin_range(cs[j], 97, 102), cin_range(cs[j], 65, 70)])):
+                    raise UnicodeDecodeError('unicodeescape', b'', i, n, 'truncated escape')
+                v = T.iadd(T.imulc(v, 16), _hexval(cs[j]))
+            out.append(v); i += 2 + k; continue
+        if decide(ceq(d, ord('N'))): raise Unsupported('\\N{...} escape on symbolic text')
+        out.append(c); i += 1       # unknown escape: the backslash stays
+    return mkstr(out)
 
 
 class OpaqueStr:
